@@ -40,6 +40,7 @@ fn export_value(ctx: &mut Ctx, v: &Int) {
     let mut sbe = sle.clone();
     sbe.reverse();
     ctx.tr(|| format!("sbytes {} {}", v.to_hex(), hexb(&sle)));
+    ctx.outcome_str(&hexb(&sle));
     let sign = if v.is_zero() {
         Sign::NoSign
     } else if v.neg {
@@ -100,6 +101,7 @@ fn import_bytes(ctx: &mut Ctx, b: &[u8]) {
     rev.reverse();
     let mag = Nat::from_bytes_le(b);
     let sv = Int::from_signed_bytes_le(b);
+    ctx.outcome_digits(sv.mag.digits());
     let args = || vec![format!("bytes_le={}", hexb(b))];
     let r = call(ctx, || BigUint::from_bytes_le(b));
     expect_nat(ctx, "BigUint::from_bytes_le", &args, r, &mag);
